@@ -267,8 +267,10 @@ impl<F: Field, EF: ExtensionField<F> + BasedVectorSpace<F>, RecMmcs: RecursiveEx
 
     fn new(circuit: &mut CircuitBuilder<EF>, input: &Self::Input) -> Self {
         let log_arity = input.log_arity as usize;
-        let arity = 1usize << log_arity;
-        let num_siblings = arity - 1;
+        // Allocate what the proof actually carries (and what `get_private_values` packs): the
+        // prover-supplied `log_arity` may be arbitrary, `1 << log_arity` must not size an
+        // allocation. `verify_fri_circuit` rejects a count that disagrees with the arity.
+        let num_siblings = input.sibling_values.len();
         let num_coeffs = num_siblings * EF::DIMENSION;
         let sibling_coefficients =
             circuit.alloc_private_inputs(num_coeffs, "FRI commit phase sibling coefficients");
